@@ -16,6 +16,7 @@ RULE = {"C18": "units: all 64 ordered triples of the four defined units x a valu
                "AnalogInput, random V / Vcc / calibration pressure incl. 0, negatives, inf and Vcc=0. Non-trivial = source and "
                "target unit differ and value != 0 (units), reading > 0 (sensors); distinct = distinct (units, value) / "
                "(sensor, reading, parameters)."}
+RULE["C18"] += "  Also: linear user chains 8-24 deep and chains of 1100-5200 units (deeper than the recursion limit); sonars that see another sonar's raw reading."
 REQUIRED = {"C18": {"triple-checked": 64, "user-chain-checked": 300, "named-ratio": 3, "sonar-pulse": 400, "sonar-analog": 400, "sonar-user-defined-output-unit": 100,
                     "pressure-positive": 400, "pressure-floor": 20, "pressure-never-raises": 400, "pressure-vcc-zero": 5,
                     "calibrate-roundtrip": 300, "user-chain-deeper-than-10": 100, "user-chain-deeper-than-1000": 10, "sonar-same-raw-reading-as-previous-sonar": 300}}
